@@ -544,6 +544,7 @@ func c16H3(r *Run) {
 	var seq []string
 	var timerDur int64 = -1
 	var timerFn *ssa.Function
+	timerDirect := false
 	fieldCall := func(call *ssa.Call) string {
 		if u, ok := call.Call.Value.(*ssa.UnOp); ok {
 			if _, fld, ok := fieldAddrOf(u.X); ok {
@@ -575,6 +576,12 @@ func c16H3(r *Run) {
 			if mc, ok := call.Call.Args[1].(*ssa.MakeClosure); ok {
 				timerFn, _ = mc.Fn.(*ssa.Function)
 			}
+			// the cancel function itself handed to the timer
+			if u, ok := call.Call.Args[1].(*ssa.UnOp); ok {
+				if _, fld, ok := fieldAddrOf(u.X); ok && fname(fld) == "cancel" {
+					timerDirect = true
+				}
+			}
 		case id.is("sync", "WaitGroup", "Wait"):
 			seq = append(seq, "wg.Wait")
 		}
@@ -586,7 +593,7 @@ func c16H3(r *Run) {
 		r.Bad("C16.H3", "kmipserver.Server.Shutdown/order", sd.Pos(), "Shutdown runs %s; required: listener.Close -> recvCancel -> AfterFunc -> wg.Wait -> cancel (cancelling before Wait kills in-flight handlers instead of draining them; returning before Wait leaves goroutines running)", strings.ReplaceAll(got, ",", " -> "))
 	}
 	// timer closure only cancels; duration 3s
-	okTimer := timerFn != nil && timerDur == 3000000000
+	okTimer := (timerFn != nil || timerDirect) && timerDur == 3000000000
 	if timerFn != nil {
 		allInstrs(timerFn, func(in ssa.Instruction) {
 			if call, ok := in.(*ssa.Call); ok && fieldCall(call) != "cancel" {
